@@ -9,6 +9,7 @@ mod h_arith;
 mod h_assert;
 mod h_c08;
 mod h_cmp;
+mod h_constraints;
 mod h_conv;
 mod h_datetime;
 mod h_html;
@@ -57,6 +58,7 @@ const ENTRIES: &[(&str, Entry)] = &[
     ("h_c15_string", h_string::h_c15_string),
     ("h_c14_integer", h_number::h_c14_integer),
     ("h_c23_temperature", h_temperature::h_c23_temperature),
+    ("h_c02_solve", h_constraints::h_c02_solve),
     ("h_c10_parse", h_parse::h_c10_parse),
     ("h_c18_step", h_list::h_c18_step),
     ("h_c18_hist", h_list::h_c18_hist),
